@@ -5,7 +5,7 @@ from . import hist
 PROP = 'C13'
 LEVEL = 'exploration'
 WALL_CAP = {'quick': 300, 'thorough': 3000}
-RUNS = {'quick': 5000, 'thorough': 60000}
+RUNS = {'quick': 10000, 'thorough': 80000}
 RULE = ('one run = Create(version in OB/FO3/SK/SSE/FO4/FO76) + CreateShapeFromData(random mesh: 1..65535 vertices with a bias to 1,2,3,255/256 and the limit, pairwise distinct '
         'in-range triangles, optional UVs/normals) followed by 0..8 setter steps (positions, UVs, normals, tangents+bitangents, colours, eye data, triangles, bounds, full '
         'precision) and restarts; after every step every getter (copy and pointer forms) is compared with the mesh model under the quantisation table of the storage form: '
